@@ -464,6 +464,15 @@ def fam_exit(tier, rng):
 FAMILIES = [fam_args, fam_locals, fam_function, fam_static, fam_shared, fam_nested, fam_errors, fam_exit]
 
 
+def fam_shared_redim(tier, rng):
+    """a SHARED dynamic array re-dimensioned inside a SUB is still the module's array (cases of the C04 REDIM family)"""
+    import c04
+    return [{"fam": "shared-" + c["fam"], "prog": c["prog"]} for c in c04.fam_redim(tier, rng) if c["fam"].endswith("sub-shared")]
+
+
+FAMILIES.append(fam_shared_redim)
+
+
 def cases(tier, seed):
     rng = random.Random(seed)
     out = []
